@@ -65,7 +65,8 @@ struct Tiff final : public Storage
     int start() noexcept;
     int stop() noexcept;
     int append(const struct VideoFrame* frames, size_t nbytes) noexcept;
-    void write_(uint64_t offset, void* buf, size_t nbytes) noexcept;
+    /// @return 1 on success, 0 if the write failed (the writer is then stopped)
+    int write_(uint64_t offset, void* buf, size_t nbytes) noexcept;
 
   private:
     void terminate_ifd_list() noexcept;
@@ -481,7 +482,12 @@ Tiff::start() noexcept
     CHECK(file_create(&file_, filename_.c_str(), filename_.length()));
     {
         const auto hdr = header();
-        write_(0, (void*)&hdr, sizeof(hdr));
+        if (!write_(0, (void*)&hdr, sizeof(hdr))) {
+            // not Running yet, so write_'s stop() did nothing: release the
+            // file here
+            file_close(&file_);
+            goto Error;
+        }
         last_offset_ = sizeof(hdr);
     }
     LOG("TIFF: Streaming to \"%s\"", filename_.c_str());
@@ -502,9 +508,11 @@ int
 Tiff::stop() noexcept
 {
     if (state == DeviceState_Running) {
+        // Leave the running state first: if the write below fails, write_()
+        // calls stop() again, which must not finalize (and fail) once more.
+        state = DeviceState_Armed;
         terminate_ifd_list();
         file_close(&file_);
-        state = DeviceState_Armed;
         frame_count_ = 0;
         LOG("TIFF: Writer stop");
     }
@@ -589,9 +597,10 @@ Tiff::append(const struct VideoFrame* frames, size_t nbytes) noexcept
             };
 
             // write
-            write_(section_ifd, &ifd, sizeof(ifd));
-            write_(section_data, (void*)cur->data, bytes_of_image);
-            write_(section_strings, ifd_strings_.data, ifd_strings_.size);
+            if (!write_(section_ifd, &ifd, sizeof(ifd)) ||
+                !write_(section_data, (void*)cur->data, bytes_of_image) ||
+                !write_(section_strings, ifd_strings_.data, ifd_strings_.size))
+                return 0; // write_ has stopped the writer
 
             // update markers
             last_ifd_next_offset_ = section_ifd + offsetof(ifdN_t, next);
@@ -608,13 +617,14 @@ Tiff::append(const struct VideoFrame* frames, size_t nbytes) noexcept
     return 1;
 }
 
-void
+int
 Tiff::write_(uint64_t offset, void* buf, size_t nbytes) noexcept
 {
     CHECK(file_write(&file_, offset, (uint8_t*)buf, (uint8_t*)buf + nbytes));
-    return;
+    return 1;
 Error:
     stop();
+    return 0;
 }
 
 enum DeviceState
